@@ -111,6 +111,15 @@ def gen_sym_lines(ctx):
     # name length limit and pool boundaries
     for n in (1, 2, 7, 8, 100, 253, 254, 255, 256, 300, 511):
         lines.append("sym a:%s:1 l:%s C I" % ("n" * n, "n" * n))
+    # a name at the limit FOLLOWED by further definitions: looked up, found, redefined (must be refused), exported,
+    # counted and enumerated; globally, inside a scope, and with the long name stored second / in the second pool
+    for n in (250, 251, 252, 253, 254, 255):
+        L = "n" * n
+        lines.append("sym a:%s:1 a:after:2 a:tail:3 l:%s l:after l:tail f:after f:tail a:after:9 a:tail:9 a:%s:9 e:after e:%s X C I" % (L, L, L, L))
+        lines.append("sym a:first:7 a:%s:1 a:after:2 l:first l:after f:after a:after:9 a:first:9 s:v:5 l:v s:v:6 l:v C I" % L)
+        lines.append("sym a:g:1 S a:%s:2 a:loc:3 l:loc f:loc a:loc:9 l:g E l:loc a:loc:4 l:loc S a:loc:5 l:loc l:%s E C I" % (L, L))
+        lines.append("sym B:p:130:250:0 a:%s:1 a:after:2 a:tail:3 l:after l:tail a:after:9 e:tail X C I" % L)
+        lines.append("sym a:%s:1 a:%s:2 a:%s:3 a:after:4 l:after f:after a:after:9 l:%s C I" % (L, "m" * n, "k" * (n - 1), "m" * n))
     heap, hdr = generated_limits()
     for pad in (8, 12, 23, 24, 56, 120, 247, 254):
         stride = pad + 1 + hdr
@@ -212,6 +221,49 @@ def elf_symbols(data):
 # property oracle
 # ---------------------------------------------------------------------------------------------
 
+def parse_answer(ans):
+    """nvlib.parse_prog, but a symbol dump that is not of the form name=hex@scope (a derailed pool walk prints heap bytes)
+    is kept as evidence instead of stopping the oracle"""
+    try:
+        return nvlib.parse_prog(ans)
+    except ValueError:
+        # syms= (and p1=) are the last fields of the answer; heap bytes may contain blanks
+        res = nvlib.parse_prog(ans[:ans.find(" syms=")] + " syms=-")
+        res["garbled"] = True
+        return res
+
+
+def long_name_programs(rng):
+    """label names at the length limit (250..255 characters; 254 is the longest accepted one) FOLLOWED by further
+    definitions that are then referenced (forwards and backwards), shadowed in a scope, redefined (must be an error),
+    assigned with .set and exported: an entry whose length field is wrong derails the pool walk for everything stored
+    behind it."""
+    out = []
+    for n in (250, 251, 252, 253, 254, 255):
+        c = rng.choice("LQnZ_")
+        L = c * n
+        L2 = (c + "x") * (n // 2) + ("y" if n % 2 else "")
+        cpu = rng.choice(["msp430", "msp430", "68000", "z80"])
+        out.append([("cpu", cpu), ("org", 0x1000), ("ref", L), ("ref", "after"), ("ref", "tail"), ("label", L), ("db", 2),
+                    ("label", "after"), ("db", 2), ("label", "tail"), ("ref", "after"), ("ref", L), ("ref", "tail"),
+                    ("export", "after"), ("export", "tail"), ("export", L)])
+        out.append([("cpu", cpu), ("label", L), ("db", 1), ("label", "again"), ("db", 2), ("label", "again"), ("db", 3)])
+        out.append([("cpu", cpu), ("label", "first"), ("db", 1), ("label", L), ("db", 1), ("label", "again"), ("db", 2),
+                    ("label", "first"), ("db", 3)])
+        out.append([("cpu", cpu), ("label", L), ("db", 3), ("scope",), ("label", L), ("db", 1), ("label", "after"), ("ref", "after"),
+                    ("ref", L), ("ends",), ("db", 5), ("label", "after"), ("ref", "after"), ("ref", L), ("export", "after")])
+        out.append([("cpu", cpu), ("label", L), ("db", 2), ("set", "v", 5), ("ref", "v"), ("set", "v", 6), ("ref", "v"),
+                    ("label", "w"), ("ref", "w"), ("ref", L)])
+        out.append([("cpu", cpu), ("label", L), ("db", 1), ("label", L2), ("db", 2), ("label", "s1"), ("db", 3), ("label", "s2"),
+                    ("ref", "s1"), ("ref", "s2"), ("ref", L2), ("ref", L), ("export", "s2"), ("export", L2)])
+        out.append([("cpu", cpu), ("label", L), ("db", 1), ("func", "f"), ("label", "inner"), ("ref", "inner"), ("ref", L), ("endf",),
+                    ("ref", "f"), ("label", "g"), ("ref", "g"), ("export", "f")])
+        out.append([("cpu", cpu), ("label", L), ("db", 1), ("func", "f"), ("endf",), ("db", 2), ("func", "f"), ("endf",)])
+        out.append([("cpu", cpu), ("func", L), ("label", "inner"), ("ref", "inner"), ("endf",), ("label", "after"), ("ref", "after"),
+                    ("ref", L), ("scope",), ("label", "after"), ("ref", "after"), ("ends",), ("ref", "after")])
+    return out
+
+
 def shape(prog):
     """normalised description of a (small) program for signatures"""
     return G.render(prog).replace("\n", "|")[:160]
@@ -248,6 +300,10 @@ def judge_prog(prog, fault, res, ref):
             out.append(("C11:ref-value:%s" % kind, "%s = %x (scope %d)" % (name, val, sc), "%x" % got,
                         "reference resolved to another definition/value"))
             break
+    if res.get("garbled"):
+        out.append(("C11:symbols:garbled", "%d symbols name=addr@scope" % len(ref["symbols"]), res["raw"][-200:],
+                    "the symbol table walk printed bytes that are no symbol entries"))
+        return out
     # the property does not fix an enumeration order: compare as sorted lists (multisets)
     want = sorted((n, v, s) for n, v, s in ref["symbols"])
     got = sorted((n, a, s) for n, a, s, ex in res["syms_list"])
@@ -289,9 +345,10 @@ def oracle(ctx, orc, focus=None):
     for n in (253, 254, 255, 256, 400):
         D.append([("cpu", "msp430"), ("ref", "N" * n), ("db", 3), ("label", "N" * n), ("ref", "N" * n)])
     progs += [(p, "dedicated") for p in D]
+    progs += [(p, "longname") for p in long_name_programs(rng)]
     # > 32 KiB of labels
     bulk = [G.gen_many_labels(rng, 1300, 20), G.gen_many_labels(rng, 3000, 12, scoped=True),
-            G.gen_many_labels(rng, 420, 250)]
+            G.gen_many_labels(rng, 420, 250), G.gen_many_labels(rng, 270, rng.choice([252, 253])), G.gen_many_labels(rng, 270, 254, scoped=True)]
     if not ctx.quick():
         bulk += [G.gen_many_labels(rng, 9000, 9, scoped=True), G.gen_many_labels(rng, 2000, 100)]
     progs += [(p, "bulk") for p in bulk]
@@ -308,7 +365,7 @@ def oracle(ctx, orc, focus=None):
     seen = set()
     for (prog, fault), line, ans in zip(progs, lines, answers):
         orc["cases"] += 1
-        res = nvlib.parse_prog(ans)
+        res = parse_answer(ans)
         ref = G.reference(prog)
         stats["faults"][fault or "none"] = stats["faults"].get(fault or "none", 0) + 1
         if ref["status"] is None: stats["unspecified"] += 1
@@ -321,6 +378,8 @@ def oracle(ctx, orc, focus=None):
                 sig = "C11:scopes>65535:" + sig.split(":", 1)[1]
             elif fault == "bulk":
                 sig = "C11:bulk:" + sig.split(":", 1)[1]
+            elif fault == "longname":
+                sig = "C11:longname:" + sig.split(":", 1)[1]
             orc["failures"].append({"sig": sig, "input": G.render(prog)[:1500], "expected": exp, "observed": obs,
                                     "what": what, "replay_line": line if len(line) < 20000 else None,
                                     "stmts": [list(x) for x in prog] if len(line) < 20000 else None, "fault": fault})
@@ -339,7 +398,8 @@ def oracle(ctx, orc, focus=None):
     exe = ctx.repo["naken_asm"]
     tmp = ctx.tmpdir()
     elf_cases = [(p, f) for p, f in progs if any(s[0] == "export" for s in p) and f in (None, "dedicated", "bulk")]
-    elf_cases = elf_cases[:ctx.scale(40, 300)] + [(p, f) for p, f in progs if f == "bulk"]
+    elf_cases = elf_cases[:ctx.scale(40, 300)] + [(p, f) for p, f in progs if f == "bulk"] + [
+        (p, f) for p, f in progs if f == "longname" and any(s[0] == "export" for s in p)]
     stats["elf_cases"] = 0
     for n, (prog, fault) in enumerate(elf_cases):
         ref = G.reference(prog)
@@ -348,7 +408,7 @@ def oracle(ctx, orc, focus=None):
         r = nvlib.run_asm(exe, G.render(prog), tmp, name="e%d" % n, outtype="elf")
         orc["cases"] += 1
         stats["elf_cases"] += 1
-        cls = "bulk" if fault == "bulk" else "prog"
+        cls = "bulk" if fault == "bulk" else "longname" if fault == "longname" else "prog"
         if r["rc"] != 0:
             orc["failures"].append({"sig": "C11:elf:%s:exit" % cls, "input": G.render(prog)[:1500], "expected": "exit 0",
                                     "observed": "exit %d %s" % (r["rc"], (r["err"] or r["out"])[-300:]), "what": "elf run failed"})
@@ -488,6 +548,6 @@ def replay(ctx, rec):
         return {"fails": bool(j), "line": line[:500], "impl": ans[:500], "verdict": j}
     if f.get("stmts"):
         prog = [tuple(x) for x in f["stmts"]]
-        j = judge_prog(prog, f.get("fault"), nvlib.parse_prog(ans), G.reference(prog))
+        j = judge_prog(prog, f.get("fault"), parse_answer(ans), G.reference(prog))
         return {"fails": bool(j), "source": G.render(prog)[:1500], "impl": ans[:500], "verdict": j[:3]}
     return {"fails": False, "line": line[:500], "impl": ans[:500], "note": "no statement list recorded"}
